@@ -2219,8 +2219,11 @@ func (c *RemoteClient) handleMessage(ctx context.Context, m *Message) error {
 				logger.Uint64("message_id", msg.ID),
 			}, "Wrong message ID in tx message")
 		} else {
-			c.nextMessageID.Store(msg.ID + 1)
-			c.addHandlerMessage(ctx, m)
+			// Only advance when the message was queued for the handlers. Otherwise the message is
+			// lost and the next ready message would not request it again.
+			if err := c.addHandlerMessage(ctx, m); err == nil {
+				c.nextMessageID.Store(msg.ID + 1)
+			}
 		}
 
 	case *TxUpdate:
@@ -2236,8 +2239,11 @@ func (c *RemoteClient) handleMessage(ctx context.Context, m *Message) error {
 				logger.Uint64("message_id", msg.ID),
 			}, "Wrong message ID in tx update message")
 		} else {
-			c.nextMessageID.Store(msg.ID + 1)
-			c.addHandlerMessage(ctx, m)
+			// Only advance when the message was queued for the handlers. Otherwise the message is
+			// lost and the next ready message would not request it again.
+			if err := c.addHandlerMessage(ctx, m); err == nil {
+				c.nextMessageID.Store(msg.ID + 1)
+			}
 		}
 
 	case *Headers:
